@@ -48,10 +48,26 @@ Qed.
 (* non-vacuity: a forked, re-merged three-replica history is well formed (checked by computation
    through the boolean form of wf in Examples.v) *)
 
+(* ---- beyond the histories C02 quantifies over: along EVERY history - merges with any bound, replicas
+   re-opened over any selection of another replica's entries (what the loaders build), everything merged
+   from and appended to those - the heads of every log are exactly its unreferenced entries, without
+   duplicates, non-empty when the log is ([owf], Proofs/POpen.v).  This is what licenses the harness to
+   evaluate the heads monitor on truncated and re-opened logs too. *)
+From IpfsLog Require Import Proofs.PInv Proofs.POpen.
+Theorem C02_heads_exact_in_every_history ops r l :
+  owf ops -> nth_error (s_logs (run ops)) r = Some l ->
+  (forall k e, In (k, e) (l_heads l) <-> In (k, e) (l_entries l) /\ ~ named_in (ents l) k) /\
+  NoDup (okeys (l_heads l)) /\
+  (l_entries l <> [] -> l_heads l <> []).
+Proof.
+  intros W L. destruct (olog_is_a_log ops r l W L) as [A [_ [B [_ [_ [C _]]]]]]. split; [exact A|]. split; [exact C|exact B].
+Qed.
+
 Print Assumptions C02_heads_exact.
 Print Assumptions C02_heads_nonempty.
 Print Assumptions C02_every_prefix.
 Print Assumptions C02_heads_accessor.
+Print Assumptions C02_heads_exact_in_every_history.
 
 From IpfsLog Require Import Model.ExampleHist Proofs.WfBool.
 Example C02_nonvacuous :
